@@ -36,6 +36,7 @@ RFold(e, r, i) ==
     \cup (IF o.st = x.st /\ x.st = OK /\ o.op \in {"r1", "rn"} THEN Tag(Has(o, "out") /\ o.out = x.out, "bytes:" \o bk \o o.op) ELSE {})
     \cup (IF e.bounded /\ Has(o, "idx") THEN Tag(o.idx = x.r.idx, "index:" \o o.op) ELSE {})
     \cup (IF Has(o, "ipos") THEN Tag(o.ipos = x.r.pos, "wrapped-position:" \o o.op) ELSE {})
+    \cup (IF Has(o, "acc") /\ o.st = x.st THEN Tag(AccessorsAgree(o.acc, RAccessors(x.r)), "accessors:" \o bk \o o.op) ELSE {})
     \cup (IF Has(o, "icalls") /\ e.bounded
           THEN IF x.inner
                THEN Tag(Len(o.icalls) = 1 /\ <<o.icalls[1].op, o.icalls[1].n>> = InnerCall(o.op, o.n, budget), "wrapped-calls:" \o o.op)
@@ -64,13 +65,16 @@ WFold(e, w, i) ==
     \cup (IF e.bounded /\ Has(o, "size") THEN Tag(o.size = x.w.idx, "index:" \o o.op) ELSE {})
     \cup (IF ~e.bounded /\ Has(o, "size") /\ o.size >= 0 THEN Tag(o.size = Len(x.w.out), "size:" \o o.op) ELSE {})
     \cup (IF Has(o, "ipos") THEN Tag(o.ipos = Len(x.w.out), "wrapped-position:" \o o.op) ELSE {})
+    \cup (IF Has(o, "acc") /\ o.st = x.st THEN Tag(AccessorsAgree(o.acc, WAccessors(x.w)), "accessors:" \o bk \o o.op) ELSE {})
     \cup (IF Has(o, "icalls") /\ e.bounded
           THEN IF x.inner
                THEN Tag(Len(o.icalls) = 1 /\ <<o.icalls[1].op, o.icalls[1].n>> = InnerCall(o.op, o.n, budget), "wrapped-calls:" \o o.op)
                ELSE Tag(o.icalls = <<>>, "wrapped-touched-on-refusal:" \o o.op)
           ELSE {})
     \cup (IF o.st # x.st THEN {}
-          ELSE IF x.w.dead /\ ~e.bounded THEN Tag(IsPrefixOf(w.out, e.out), "output")   \* after the first failure: only what was accepted stays
+          \* after the first failure of the sink itself: only what was accepted before stays (a failing stream or
+          \* descriptor may have taken part of the last transfer; its state is unspecified from then on)
+          ELSE IF x.w.dead /\ (~e.bounded \/ e.kind \in {"lstream", "fdfull"}) THEN Tag(IsPrefixOf(w.out, e.out), "output")
           ELSE WFold(e, x.w, i + 1))
 
 \* bytes produced by compile-time serialization equal those produced at run time (by the constexpr writer and
